@@ -610,6 +610,11 @@ bool Instance::configure_tx_txin() {
 
 uint256 Instance::calc_sighash() {
     uint256 hash;
+    if (tx->vin.size() != 1) {
+        // only one funding transaction is known, so only its output can be given as spent output
+        fprintf(stderr, "cannot generate a taproot signature hash for a transaction with %zu inputs (only single-input transactions are supported)\n", tx->vin.size());
+        exit(1);
+    }
     std::vector<CTxOut> spent_outputs;
     spent_outputs.emplace_back(txin->vout[txin_vout_index]);
     txdata = PrecomputedTransactionData();
